@@ -160,8 +160,13 @@ def check_property(pid, tier, seed):
     kchecks = sum(kr.checks_total for kr in kres)
     kfailed = sum(kr.checks_failed for kr in kres)
     my_failed = len(violations) + len(known_hits)
-    obligations = verified + errors + kchecks
     discharged = verified + (kchecks - kfailed)
+    # work items (Verus function-level VCs, Kani checks) that fail for a reason that is NOT a listed open finding and
+    # is attributed to this property.  Items that fail only because of an open known finding (printed as
+    # KNOWN-FINDING) or of another property's clause are not claimed by this run and are reported separately.
+    failing_items = {(f.unit, f.fn) for f in violations}
+    obligations = discharged + len(failing_items)
+    excluded_items = (errors + kfailed) - len(failing_items)
     trusted = []
     assumptions = []
     samples = []
@@ -191,6 +196,7 @@ def check_property(pid, tier, seed):
         samples += kr.samples[:6]
     cov = {
         "obligations": obligations, "discharged": discharged,
+        "items_not_claimed": {"count": max(0, excluded_items), "why": "work items whose only failures are open known findings (KNOWN-FINDING lines) or clauses of other properties; they are neither counted as obligations of this run nor as discharged"},
         "checker_cmd": "verus <unit>.rs --multiple-errors 60 --output-json --time --error-format=json (one generated file per unit; see units)"
                        + ("; cargo kani --harness <h> (see units)" if kres else ""),
         "trusted_base": sorted(set(trusted)),
